@@ -53,3 +53,13 @@ Definition csd_to_signal (cr ci : nat -> R) (M : nat) (n : nat) : R :=
 Definition block (x : nat -> R) (L b : nat) (n : nat) : R := x (b * L + n)%nat.
 Definition psd (x : nat -> R) (L B m : nat) : R :=
   rsumN (fun b => sqrt (bin_power (block x L b) L m)) B / INR B.
+
+(* ---------------------------------------------------------------- windows *)
+(* a cosine-sum window of order J on the periodic N-point grid (scipy.signal.get_window(name, N), fftbins=True):
+   w_n = sum_{j<=J} c_j cos(2 pi j n / N);  hann (1/2, -1/2), hamming (0.54, -0.46), blackman (0.42, -1/2, 0.08),
+   flattop (a0, -a1, a2, -a3, a4).  That scipy's windows are these sums is checked numerically by harness/C16.py. *)
+Definition cos_window (c : nat -> R) (J N : nat) (n : nat) : R :=
+  rsumN (fun j => c j * cos (INR n * ang N (Z.of_nat j))) (S J).
+(* util.csd(s, window): s is multiplied by w / w.mean() before the transform *)
+Definition wmean (w : nat -> R) (N : nat) : R := rsumN w N / INR N.
+Definition windowed (w : nat -> R) (N : nat) (x : nat -> R) (n : nat) : R := w n / wmean w N * x n.
